@@ -25,8 +25,9 @@ class FD:
     """one field declaration (all fields are annotated `int`)"""
 
     def __init__(self, tag, expr=None, plain_default=None, required=True, default=ABSENT, defer=False, alias=None,
-                 alias_from=(), ci=None, no_input=None, no_output=None, mode=None, deps=(), on_error=None):
+                 alias_from=(), ci=None, no_input=None, no_output=None, mode=None, deps=(), on_error=None, ann="int"):
         self.tag = tag
+        self.ann = ann                      # annotation text (int, or a wrapper of it such as typing.Final[int])
         self.expr = expr                    # Field(...) expression template; {n} is the field name
         self.plain_default = plain_default  # `a: int = 7`
         self.required = required
@@ -58,10 +59,10 @@ class BoundField:
     def source(self):
         fd = self.fd
         if fd.expr:
-            return f"    {self.name}: int = " + fd.expr.format(n=self.name, o=self.other)
+            return f"    {self.name}: {fd.ann} = " + fd.expr.format(n=self.name, o=self.other)
         if fd.plain_default is not None:
-            return f"    {self.name}: int = {fd.plain_default}"
-        return f"    {self.name}: int"
+            return f"    {self.name}: {fd.ann} = {fd.plain_default}"
+        return f"    {self.name}: {fd.ann}"
 
     def spellings(self):
         return (self.name,) + ((self.alias,) if self.alias else ()) + self.alias_from
